@@ -11,7 +11,7 @@
 From Coq Require Import List NArith ZArith Bool.
 From NV Require Import Syntax.Token Syntax.Ast Syntax.StmtAst Syntax.Parser Syntax.Grammar
      Syntax.ParserProofs Syntax.GrammarProofs Syntax.OpTableCheck Syntax.LexTable Syntax.FuelProofs
-     Syntax.SoundProofs Syntax.TypeGrammar Syntax.TypeProofs Syntax.StmtGrammar Syntax.StmtProofs Syntax.Lexer Syntax.LexNumber Gen.OpTable.
+     Syntax.SoundProofs Syntax.TypeGrammar Syntax.TypeProofs Syntax.StmtGrammar Syntax.StmtProofs Syntax.Lexer Syntax.LexNumber Syntax.LexIdent Gen.OpTable.
 Import ListNotations.
 
 (* Every well-formed derivation tree, of any size and nesting depth, is read back as exactly
@@ -96,6 +96,29 @@ Theorem C10_lex_number_sound : forall (xid_start xid_continue : N -> bool) (d : 
   exists n, wf_num n = true /\ l = pr_num n /\ cs = l ++ r /\ d' = d.
 Proof. exact lex_number_sound. Qed.
 Print Assumptions C10_lex_number_sound.
+
+(* Identifiers, for ANY Unicode classes XID_Start / XID_Continue (Syntax/LexIdent.v): a start character
+   that is not one of the punctuation characters tested earlier, followed by any number of continue
+   characters, up to a character that does not continue an identifier (and not a `.` that is not a
+   field access), is one token: the keyword it spells, else an Identifier with that lexeme.
+   Conversely every Identifier token is such a word, it is not a keyword, it ends where no continue
+   character follows, and nothing else was consumed. *)
+Theorem C10_lex_ident : forall (xid_start xid_continue : N -> bool) (c : N) (body rest : str) (d : nat),
+  early c = false -> is_identifier_start xid_start c = true ->
+  forallb (is_identifier_continue xid_continue) body = true ->
+  ident_stop xid_start xid_continue rest = true ->
+  scan_single_token xid_start xid_continue d (c :: body ++ rest) = LOk (Some (word_token (c :: body)), rest, d).
+Proof. exact lex_ident_complete. Qed.
+Print Assumptions C10_lex_ident.
+
+Theorem C10_lex_ident_sound : forall (xid_start xid_continue : N -> bool) (d : nat) (cs l r : str) (d' : nat),
+  scan_single_token xid_start xid_continue d cs = LOk (Some (TIdent l), r, d') ->
+  exists c body, l = c :: body /\ is_identifier_start xid_start c = true
+                 /\ forallb (is_identifier_continue xid_continue) body = true
+                 /\ keyword_of l = None /\ cs = l ++ r
+                 /\ peek_is (is_identifier_continue xid_continue) r = false /\ d' = d.
+Proof. exact lex_ident_sound. Qed.
+Print Assumptions C10_lex_ident_sound.
 
 (* Two well-formed renderings of the same tree (redundant parentheses, `per` vs `/`,
    `to` vs `->`, unary plus, `^-x` vs `^(-x)`) parse identically. *)
